@@ -115,6 +115,9 @@ func (sp *SolverPool) Solve(query string, wantDefinitive bool) (result SolveResu
 func (sp *SolverPool) SolveT(query string, timeout float64) (result SolveResult) {
 	h := sha256.Sum256([]byte(query))
 	key := hex.EncodeToString(h[:16])
+	if sp.twoSolver {
+		key += "-2s"
+	}
 	cacheFile := filepath.Join(sp.cacheDir, key)
 	if !sp.noCache {
 		if data, err := os.ReadFile(cacheFile); err == nil {
@@ -185,7 +188,7 @@ func (sp *SolverPool) SolveT(query string, timeout float64) (result SolveResult)
 					// need a second, different solver binary
 					distinct := map[string]bool{}
 					for _, n := range unsatBy {
-						distinct[strings.SplitN(n, "-", 2)[0]+strings.SplitN(n+"-", "-", 3)[1]] = true
+						distinct[solverBinary(n)] = true
 					}
 					if len(distinct) < 2 {
 						if best.Status != "unsat" {
@@ -198,7 +201,7 @@ func (sp *SolverPool) SolveT(query string, timeout float64) (result SolveResult)
 						}
 						continue
 					}
-					best = SolveResult{Status: "unsat", Solver: unsatBy[0], Second: r.cfg.Name, Time: r.dt, Output: ""}
+					best = SolveResult{Status: "unsat", Solver: unsatBy[0] + "+" + r.cfg.Name, Second: r.cfg.Name, Time: r.dt, Output: ""}
 				} else {
 					best = SolveResult{Status: r.status, Solver: r.cfg.Name, Time: r.dt, Output: firstLines(r.out, 400)}
 				}
@@ -265,4 +268,13 @@ func (sp *SolverPool) quickCheck(query string) string {
 	defer os.Remove(file)
 	s, _, _ := sp.runOne(context.Background(), sp.cfgs[0], file, 2)
 	return s
+}
+
+// solverBinary: "z3-5.1.0-nombqi" and "z3-5.1.0" are the same binary.
+func solverBinary(name string) string {
+	parts := strings.Split(name, "-")
+	if len(parts) >= 2 {
+		return parts[0] + "-" + parts[1]
+	}
+	return name
 }
